@@ -873,12 +873,14 @@ def broadcast_and_apply(  # noqa: C901
                 isinstance(x, ak.layout.RegularArray) or not isinstance(x, listtypes)
                 for x in inputs
             ):
-                maxsize = max(
-                    [x.size for x in inputs if isinstance(x, ak.layout.RegularArray)]
-                )
+                sizes = [x.size for x in inputs if isinstance(x, ak.layout.RegularArray)]
+                maxsize = max(sizes)
+                if maxsize == 1 and 0 in sizes:
+                    # as in NumPy, a dimension of length 1 stretches to length 0, too
+                    maxsize = 0
                 for x in inputs:
                     if isinstance(x, ak.layout.RegularArray):
-                        if maxsize > 1 and x.size == 1:
+                        if maxsize != 1 and x.size == 1:
                             tmpindex = ak.layout.Index64(
                                 nplike.repeat(
                                     nplike.arange(len(x), dtype=np.int64), maxsize
@@ -887,7 +889,7 @@ def broadcast_and_apply(  # noqa: C901
                 nextinputs = []
                 for x in inputs:
                     if isinstance(x, ak.layout.RegularArray):
-                        if maxsize > 1 and x.size == 1:
+                        if maxsize != 1 and x.size == 1:
                             nextinputs.append(
                                 ak.layout.IndexedArray64(
                                     tmpindex, x.content[: len(x) * x.size]
